@@ -51,7 +51,7 @@ fn nonce_counters(rng: &mut Rng, extra: usize) -> Vec<u64> {
 
 fn encryptor_differential(ctx: &Ctx) {
     // production-size tuples
-    let n = ctx.tier.pick(60, 600);
+    let n = ctx.tier.pick(60, 3000);
     par_for(n, crate::util::ncpu(), |i| {
         let mut rng = Rng::fork(ctx.seed, &format!("C06-enc-{}", i));
         let len = match i % 6 {
@@ -172,7 +172,7 @@ fn region_key(first: usize, chunking: &[usize]) -> &'static str {
 }
 
 fn decryptor_accepts_spec_files(ctx: &Ctx) {
-    let n = ctx.tier.pick(60, 600);
+    let n = ctx.tier.pick(60, 3000);
     par_for(n, crate::util::ncpu(), |i| {
         let mut rng = Rng::fork(ctx.seed, &format!("C06-dec-{}", i));
         let len = match i % 5 {
@@ -219,7 +219,7 @@ fn decryptor_accepts_spec_files(ctx: &Ctx) {
 fn small_bodies(ctx: &Ctx) {
     // every |P| <= L, every chunking with parts <= c: spec body == real chunk loop output (same partition),
     // and the real chunk decryptor reads every spec body
-    let max_len = ctx.tier.pick(9, 12);
+    let max_len = ctx.tier.pick(9, 14);
     let mut work = Vec::new();
     for c in 1..=4usize {
         for len in 0..=max_len {
@@ -481,6 +481,41 @@ fn cli_conformance(ctx: &Ctx) {
         } else {
             ctx.violation("C06:cli:conforming-password-file-not-decrypted-by-the-tool", case("password decrypt of a specification-made file", &o));
         }
+        // (a') the same with short non-final chunks, as a FILE argument and with -o (the output must be exactly the plaintext)
+        {
+            let small = &pt[..2500 + i];
+            let chunking = vec![1000usize, 1000, 500 + i];
+            let f2 = refspec::encode_pass_file(w.as_bytes(), &salts[i], small, &chunking);
+            let fp2 = wdp.write(&format!("short{}.ktl", i), &f2);
+            let outp = wdp.file(&format!("short{}.out", i));
+            let o = Cmd::new(&wdp.path, &["password", "decrypt", fp2.to_str().unwrap(), "-o", outp.to_str().unwrap(), "--env-pass"]).pass(w).run();
+            ctx.eval();
+            let got = std::fs::read(&outp).unwrap_or_default();
+            if o.exit == Exit::Code(0) && got == small {
+                ctx.seen("cli decrypts a short-chunk password file to exactly its plaintext (-o)");
+            } else {
+                let mut v = case("password decrypt FILE -o OUT of a conforming file with chunks of 1000,1000,500+ bytes", &o);
+                v["output_len"] = json!(got.len());
+                v["expected_len"] = json!(small.len());
+                ctx.violation("C06:cli:conforming-short-chunk-file-not-decrypted-to-exactly-its-plaintext", v);
+            }
+            let kf2 = refspec::encode_key_file(&peer.sk, &peer.pk, &ids[i].pk, &eph[i].1, &eph[i].0, small, &chunking).unwrap();
+            let kfp2 = wdp.write(&format!("kshort{}.ktl", i), &kf2);
+            let kr0 = keyring_text(&[(&ids[i], true), (&peer, true)]);
+            wdp.write(&format!("kr{}.txt", i), kr0.as_bytes());
+            let outk = wdp.file(&format!("kshort{}.out", i));
+            let o = Cmd::new(&wdp.path, &["decrypt", kfp2.to_str().unwrap(), "-t", &ids[i].name, "-o", outk.to_str().unwrap(), "-k", &format!("kr{}.txt", i), "--env-pass"]).pass(w).run();
+            ctx.eval();
+            let got = std::fs::read(&outk).unwrap_or_default();
+            if o.exit == Exit::Code(0) && got == small {
+                ctx.seen("cli decrypts a short-chunk key file to exactly its plaintext (-o)");
+            } else {
+                let mut v = case("decrypt FILE -o OUT of a conforming key file with chunks of 1000,1000,500+ bytes", &o);
+                v["output_len"] = json!(got.len());
+                v["expected_len"] = json!(small.len());
+                ctx.violation("C06:cli:conforming-short-chunk-file-not-decrypted-to-exactly-its-plaintext", v);
+            }
+        }
         // (b) tool-made password file -> specification
         let o = Cmd::new(&wdp.path, &["password", "encrypt", "--env-pass"]).pass(w).stdin(Stdin::Bytes(pt.clone())).run();
         ctx.eval();
@@ -549,6 +584,7 @@ pub fn run(ctx: &Ctx) {
     ctx.require("cli decrypts a specification-made password file", 6);
     ctx.require("specification decrypts a tool-made password file", 6);
     ctx.require("cli unlocks a specification-locked key", 6);
+    ctx.require("cli decrypts a short-chunk", 12);
     ctx.require("encryptor==spec key mode", 20);
     ctx.require("encryptor==spec password mode", 10);
     ctx.require("decryptor accepts spec-made", 40);
